@@ -53,7 +53,20 @@ func checkC11(rep *Report, rng *Rng, tier string) {
 				}
 			}
 		}
-		d := CfgDesc{Check: "C11", FileBacked: g.FileBacked, CmpCB: g.CmpMode == 1, DumpEvery: true}
+		cmpCB := g.CmpMode == 1
+		if cmpCB && r.Chance(1, 2) {
+			// comparators given to SetCollection only (no KeyCompareForCollection callback): the source is then
+			// never re-opened, and the copy must still use each collection's comparator
+			cmpCB = false
+			var keep []Op
+			for _, o := range ops {
+				if o.K != "reopen" {
+					keep = append(keep, o)
+				}
+			}
+			ops = keep
+		}
+		d := CfgDesc{Check: "C11", FileBacked: g.FileBacked, CmpCB: cmpCB, DumpEvery: true}
 		return d.RunCfg(), ops, d.String()
 	}, nil)
 }
